@@ -2535,6 +2535,11 @@ class Matrix:
             self.e = components[4]
             self.f = components[5]
             self.render(**kwargs)
+        # A translation with units is a (mutable) Length until rendered, each matrix holds its own.
+        if isinstance(self.e, Length):
+            self.e = copy(self.e)
+        if isinstance(self.f, Length):
+            self.f = copy(self.f)
 
     def __ne__(self, other):
         return not self.__eq__(other)
